@@ -57,6 +57,9 @@ func projNum(x float64) M {
 		return M{"t": "bad", "gotype": fmt.Sprintf("float64(%v)", x)}
 	}
 	if x == 0 {
+		if math.Signbit(x) {
+			return M{"t": "num", "n": 0, "d": 2} // a zero whose sign the model does not track (JV!ZeroU)
+		}
 		return M{"t": "num", "n": 0, "d": 1}
 	}
 	r := new(big.Rat).SetFloat64(x)
@@ -219,6 +222,9 @@ func unproject(m interface{}) interface{} {
 	case "bool":
 		return mm["b"].(bool)
 	case "num":
+		if toInt(mm["n"]) == 0 {
+			return float64(0)
+		}
 		return float64(toInt(mm["n"])) / float64(toInt(mm["d"]))
 	case "str":
 		return cpsToString(mm["s"])
